@@ -165,8 +165,9 @@ Proof.
   apply (io_func LJava 0 [] [_; _; _] 0 3 _ [_; _; _; _; _; _; _; _] _ [] [] []);
     [reflexivity | | reflexivity | reflexivity | | discriminate | constructor].
   - apply (fh_plain LJava _ [_; _]); [reflexivity | reflexivity |]. apply (one_group _ [] _); reflexivity.
-  - apply (io_ctrl LJava _ _ [_; _; _] _ [_; _] _ [] [] []);
-      [reflexivity | right; apply (one_group _ [_] _); reflexivity | | reflexivity | reflexivity | | constructor].
+  - apply (io_ctrl LJava _ _ [] [_; _; _] _ [_; _] _ [] [] []);
+      [reflexivity | reflexivity | right; split; [apply (one_group _ [_] _); reflexivity | reflexivity]
+       | | reflexivity | reflexivity | | constructor].
     + unfold no_throws_kw. repeat (apply Forall_cons; [reflexivity|]). apply Forall_nil.
     + apply (io_stmt LJava _ [_; _] [] []); [apply one_stmt; reflexivity | constructor].
 Qed.
@@ -175,6 +176,52 @@ Example java2_hypotheses : wf_descs java2 java2_ds /\ lexically_canonical_of LJa
 Proof.
   split; [apply (canonical_of_wf LJava) | apply (canonical_of_lexical LJava)];
     (discriminate || exact java2_canonical).
+Qed.
+
+(* declarations with a braced body that are not functions (rule io_ctrl with words):
+   public class A extends B { void f ( ) { x ; } } else if ( x ) { y ; } *)
+Definition java3 : list token :=
+  toks [(0,[112;117;98;108;105;99]);(0,[99;108;97;115;115]);(1,[65]);(0,[101;120;116;101;110;100;115]);(1,[66]);(2,[123]);
+        (0,[118;111;105;100]);(1,[102]);(2,[40]);(2,[41]);(2,[123]);(1,[120]);(2,[59]);(2,[125]);(2,[125]);
+        (0,[101;108;115;101]);(0,[105;102]);(2,[40]);(1,[120]);(2,[41]);(2,[123]);(1,[121]);(2,[59]);(2,[125])]%Z.
+Definition java3_ds : list fdesc := [mkFd 7 7 10 10 13].
+
+Lemma no_throws_of_b ts : forallb (fun t => negb (kw_is t s_throws)) ts = true -> no_throws_kw ts.
+Proof.
+  intros H. apply Forall_forall. intros t Ht. rewrite forallb_forall in H. apply H in Ht. apply negb_true_iff in Ht. exact Ht.
+Qed.
+
+Example java3_items : forall l, is_cfamily l = true -> lang_nested l = true -> canonical_program_of l java3 java3_ds.
+Proof.
+  intros l Hl Hn. unfold canonical_program_of, java3_ds.
+  let s := eval vm_compute in java3 in change java3 with s.
+  (* public class A extends B { ... } *)
+  apply (io_ctrl l 0 _ [_; _; _; _] [] _ [_; _; _; _; _; _; _; _] _ [_; _; _; _; _; _; _; _; _] [_] []);
+    [reflexivity | reflexivity | left; reflexivity | apply no_throws_of_b; reflexivity | reflexivity | reflexivity | | ].
+  - (* void f ( ) { x ; } *)
+    cbn [length Nat.add].
+    apply (io_func l 6 [_] [_; _; _] 0 3 _ [_; _] _ [] [] []);
+      [reflexivity | | reflexivity | reflexivity | | intros E; congruence | constructor].
+    + apply (fh_plain l _ [_; _]); [exact Hl | reflexivity |]. apply (one_group _ [] _); reflexivity.
+    + apply (io_stmt l _ [_; _] [] []); [apply one_stmt; reflexivity | constructor].
+  - (* else if ( x ) { y ; } *)
+    cbn [length Nat.add].
+    apply (io_ctrl l 15 _ [_] [_; _; _] _ [_; _] _ [] [] []);
+      [reflexivity | reflexivity | right; split; [apply (one_group _ [_] _); reflexivity | reflexivity]
+       | apply no_throws_of_b; reflexivity | reflexivity | reflexivity | | constructor].
+    apply (io_stmt l _ [_; _] [] []); [apply one_stmt; reflexivity | constructor].
+Qed.
+
+Example java3_canonical : canonical_program_of LJava java3 java3_ds.
+Proof. apply java3_items; reflexivity. Qed.
+
+Example java3_hypotheses :
+  (wf_descs java3 java3_ds /\ lexically_canonical_of LJava java3 java3_ds) /\
+  lexically_canonical_of LCpp java3 java3_ds /\ lexically_canonical_of LCSharp java3 java3_ds.
+Proof.
+  split; [split; [apply (canonical_of_wf LJava) | apply (canonical_of_lexical LJava)];
+          (discriminate || exact java3_canonical)|].
+  split; apply canonical_of_lexical; try discriminate; apply java3_items; reflexivity.
 Qed.
 
 (* the hypotheses of the end-to-end theorem hold of the examples: by the theorems ... *)
@@ -200,5 +247,6 @@ Qed.
 Example examples_checked :
   wf_descs_b ts1 ds1 = true /\ lexically_canonical_of_b LTypeScript ts1 ds1 = true /\
   wf_descs_b java1 java1_ds = true /\ lexically_canonical_of_b LJava java1 java1_ds = true /\
-  wf_descs_b js1 js1_ds = true /\ lexically_canonical_of_b LJavaScript js1 js1_ds = true.
+  wf_descs_b js1 js1_ds = true /\ lexically_canonical_of_b LJavaScript js1 js1_ds = true /\
+  wf_descs_b java3 java3_ds = true /\ lexically_canonical_of_b LJava java3 java3_ds = true.
 Proof. vm_compute. repeat split; reflexivity. Qed.
